@@ -535,6 +535,19 @@ impl Pager {
     }
 }
 
+#[cfg(feature = "verif")]
+impl Pager {
+    /// (hits, misses, evictions) of the page cache, for verification reach probes.
+    pub fn verif_cache_stats(&self) -> (u64, u64, u64) {
+        let s = self.cache.stats();
+        (
+            s.cache_hits.get() as u64,
+            s.cache_misses.get() as u64,
+            s.frames_evicted.get() as u64,
+        )
+    }
+}
+
 make_shared! {SharedPager, Pager}
 
 impl Write for Pager {
